@@ -178,11 +178,40 @@ def run_harness(args, inp=None, release=False, timeout=3000):
     return rc, out
 
 
-def run_driver(args, inp, timeout=3000):
+def _run_driver_one(args, inp, timeout):
     env = dict(ENV)
     rc, out, dt = run(["sh", "-c", "ulimit -s unlimited 2>/dev/null; exec %s %s" % (os.path.join(OCAML, "driver"), " ".join(args))],
                       inp=inp, timeout=timeout, env=env)
     return rc, out
+
+
+JOBS = os.cpu_count() or 16
+SHARDED_MODES = ("frames", "chains", "owned", "client", "framed", "parse", "builder", "bodystruct")
+
+
+def run_driver(args, inp, timeout=3000):
+    """Run the extracted model.  The line-per-case modes (one output line per input line, cases independent) are
+    split over the cores; the outputs are concatenated in input order."""
+    lines = inp.split("\n")
+    if lines and lines[-1] == "":
+        lines.pop()
+    if args[0] not in SHARDED_MODES or len(lines) < 400:
+        return _run_driver_one(args, inp, timeout)
+    from concurrent.futures import ThreadPoolExecutor
+    k = min(JOBS, max(1, len(lines) // 100))
+    size = (len(lines) + k - 1) // k
+    chunks = [lines[i:i + size] for i in range(0, len(lines), size)]
+    with ThreadPoolExecutor(max_workers=len(chunks)) as ex:
+        res = list(ex.map(lambda c: _run_driver_one(args, "\n".join(c) + "\n", timeout), chunks))
+    rc = 0
+    outs = []
+    for r, o in res:
+        if r != 0 and rc == 0:
+            rc = r
+        if o and not o.endswith("\n"):
+            o += "\n"
+        outs.append(o)
+    return rc, "".join(outs)
 
 
 # ---------------------------------------------------------------- evidence / replay / findings
